@@ -88,7 +88,10 @@ TEXT = {
           "uintN/intN/bool/address/tokenStandard/hash/bytesN/bytes/string) the decoder returns a value or an error, never a "
           "panic (abi_no_panic_general, by induction over the type AST); instantiated by decide on the generated table of "
           "every method and every storage variable of every embedded ABI of the working tree (abi_no_panic, "
-          "abi_variables_no_panic); selectors are pairwise distinct per ABI. Tied to the code by three streams: ledger "
+          "abi_variables_no_panic); selectors are pairwise distinct per ABI; decoding the canonical encoding that every "
+          "ValidateSendBlock stores (Arguments.Pack of the decoded values) returns exactly those values for every "
+          "method of every embedded ABI (unpack_pack_partial + flat_signatures = receive_decodes_what_send_validated: the "
+          "second decode on the receive path, followed by DealWithErr in several methods, cannot fail). Tied to the code by three streams: ledger "
           "(generated histories, exact-refund monitor), abi (real decoder and real ValidateSendBlock on canonical and "
           "hostile encodings of every method, result + decoded values + re-packed bytes compared with the model) and "
           "autoreceive (every contract x method x 0..3 sporks x four generators x template/gossip delivery; the "
